@@ -12,6 +12,7 @@ package main
 //   r     ok | e:<kind> | p:<pkttext> | -
 
 import (
+	"bytes"
 	"fmt"
 	"io"
 	"strings"
@@ -124,6 +125,48 @@ func resText(err error) string {
 	return "e:" + errKind(err)
 }
 
+// wireClause evaluates "the bytes on the wire are the concatenation of the encodings of the
+// written packets, in write order" on the recorded carrier writes: accepted = encodings of the
+// writes/sends that returned nil, in order; rejected = encoding of the first one that returned
+// a carrier error (it may have been cut by the failure), nil if none; complete = everything
+// accepted must be there (the writer was flushed and the carrier never failed).
+func wireClause(wire []byte, accepted [][]byte, rejected []byte, complete bool) string {
+	var want []byte
+	for _, a := range accepted {
+		want = append(want, a...)
+	}
+	if complete {
+		if !bytes.Equal(wire, want) {
+			return fmt.Sprintf("flushed wire (%d bytes) differs from the concatenation of the %d accepted encodings (%d bytes); first difference at byte %d",
+				len(wire), len(accepted), len(want), firstDiff(wire, want))
+		}
+		return ""
+	}
+	if len(wire) <= len(want) {
+		if !bytes.Equal(wire, want[:len(wire)]) {
+			return fmt.Sprintf("wire (%d bytes) is not a prefix of the concatenation of the accepted encodings; first difference at byte %d", len(wire), firstDiff(wire, want))
+		}
+		return ""
+	}
+	full := append(append([]byte{}, want...), rejected...)
+	if len(wire) >= len(full) || !bytes.Equal(wire, full[:len(wire)]) {
+		return fmt.Sprintf("wire (%d bytes) holds more than the accepted encodings (%d bytes) plus a proper prefix of the rejected one", len(wire), len(want))
+	}
+	return ""
+}
+
+func firstDiff(a, b []byte) int {
+	for i := 0; i < len(a) && i < len(b); i++ {
+		if a[i] != b[i] {
+			return i
+		}
+	}
+	if len(a) < len(b) {
+		return len(a)
+	}
+	return len(b)
+}
+
 // ---------------------------------------------------------------- Encoder scripts
 
 type encScript struct {
@@ -149,17 +192,28 @@ func (x *c03) encCase(s encScript) {
 		e.SetMaxWriteDelay(timerDelay)
 	}
 	var res []string
-	var sent []packet.Generic
+	var accepted [][]byte
+	var rejected []byte
+	failed := s.wleft >= 0
 	for _, o := range s.ops {
 		switch o.kind {
 		case 'W':
 			err := e.Write(o.pkt, o.async)
 			res = append(res, resText(err))
 			if err == nil {
-				sent = append(sent, o.pkt)
+				accepted = append(accepted, encode(o.pkt))
+			} else if errKind(err) != "decode" {
+				failed = true
+				if rejected == nil {
+					rejected = encode(o.pkt)
+				}
 			}
 		case 'F':
-			res = append(res, resText(e.Flush()))
+			err := e.Flush()
+			res = append(res, resText(err))
+			if err != nil {
+				failed = true
+			}
 		case 'T':
 			if w.waitTimer(timerWait) {
 				res = append(res, "t")
@@ -168,6 +222,7 @@ func (x *c03) encCase(s encScript) {
 			}
 		case 'X':
 			w.failWrites()
+			failed = true
 			res = append(res, "-")
 		case 'D':
 			if o.zero {
@@ -179,8 +234,15 @@ func (x *c03) encCase(s encScript) {
 		}
 	}
 	ws := w.snapshotWrites()
-	_ = e.Flush() // leave no timer behind
+	ferr := e.Flush() // leave no timer behind
 	c.Emit("impl %d res=%s writes=%s spont=%s", n, strings.Join(res, "|"), hexList(ws), hx.B01(w.spontaneous))
+	// the property's clause on the implementation alone
+	if m := wireClause(bytes.Join(w.snapshotWrites(), nil), accepted, rejected, !failed && ferr == nil); m != "" {
+		c.Emit("direct c03_wire_is_concat %d FAIL %s", n, m)
+	} else {
+		c.Emit("direct c03_wire_is_concat %d ok", n)
+	}
+	c.Stat("direct_wire", 1)
 	c.Stat("enc_cases", 1)
 	if w.spontaneous {
 		c.Stat("spontaneous_timer", 1)
@@ -202,6 +264,23 @@ func (x *c03) randPacket(big bool) packet.Generic {
 func (x *c03) encoderCases() {
 	c := x.c
 	r := c.Rng
+	// a pending async write, then a packet around the 4096-byte bufio buffer (sync and async), then more
+	for _, size := range []int{4000, 4090, 4094, 4095, 4096, 4097, 4100, 5000, 8192, 9000, 20000} {
+		for _, bigAsync := range []bool{false, true} {
+			for _, pre := range []int{1, 2} {
+				s := encScript{wleft: -1}
+				for k := 0; k < pre; k++ {
+					s.ops = append(s.ops, sop{kind: 'W', pkt: genPacket(r, r.Intn(14), r.Intn(20)), async: true})
+				}
+				s.ops = append(s.ops, sop{kind: 'W', pkt: publishOfLen(r, size), async: bigAsync},
+					sop{kind: 'W', pkt: genPacket(r, r.Intn(14), r.Intn(20)), async: true})
+				if pre == 2 {
+					s.ops = append(s.ops, sop{kind: 'F'})
+				}
+				x.encCase(s)
+			}
+		}
+	}
 	n := 300
 	if c.Thorough() {
 		n = 4000
@@ -289,19 +368,47 @@ func (x *c03) connCase(s connScript) {
 		conn.SetMaxWriteDelay(timerDelay)
 	}
 	var res []string
+	var accepted [][]byte
+	var rejected []byte
+	failed := s.wleft >= 0
+	closedAt := -1 // accepted sends at the moment of the first Close
 	for _, o := range s.ops {
 		switch o.kind {
 		case 'S':
-			res = append(res, resText(conn.Send(o.pkt, o.async)))
+			err := conn.Send(o.pkt, o.async)
+			res = append(res, resText(err))
+			if err == nil {
+				accepted = append(accepted, encode(o.pkt))
+			} else {
+				failed = true
+				if rejected == nil && errKind(err) != "decode" {
+					rejected = encode(o.pkt)
+				}
+			}
 		case 'R':
 			p, err := conn.Receive()
 			if err != nil {
+				failed = true // a receive error closes the carrier
 				res = append(res, resText(err))
 			} else {
 				res = append(res, "p:"+hx.PktText(p))
 			}
 		case 'C':
-			res = append(res, resText(conn.Close()))
+			err := conn.Close()
+			res = append(res, resText(err))
+			if closedAt < 0 {
+				closedAt = len(accepted)
+				if !failed && !s.clfail {
+					// Close loses nothing: everything accepted so far is on the wire now
+					if m := wireClause(bytes.Join(m.snapshotWrites(), nil), accepted, nil, true); m != "" || err != nil {
+						c.Emit("direct c19_close_flushes %d FAIL after Close (%v): %s", n, err, m)
+					} else {
+						c.Emit("direct c19_close_flushes %d ok", n)
+					}
+					c.Stat("close_flushes_checks", 1)
+				}
+			}
+			failed = true
 		case 'T':
 			if m.waitTimer(timerWait) {
 				res = append(res, "t")
@@ -310,6 +417,7 @@ func (x *c03) connCase(s connScript) {
 			}
 		case 'X':
 			m.failWrites()
+			failed = true
 			res = append(res, "-")
 		case 'Q':
 			conn.SetReadTimeout(0)
@@ -326,6 +434,19 @@ func (x *c03) connCase(s connScript) {
 	ws := m.snapshotWrites()
 	_ = conn.Close()
 	c.Emit("impl %d res=%s writes=%s spont=%s", n, strings.Join(res, "|"), hexList(ws), hx.B01(m.spontaneous))
+	{
+		// sends accepted after the connection died never reach the wire: the clause is about the ones before
+		acc := accepted
+		if closedAt >= 0 && closedAt < len(acc) {
+			acc = acc[:closedAt]
+		}
+		if msg := wireClause(bytes.Join(m.snapshotWrites(), nil), acc, rejected, !failed && closedAt < 0); msg != "" && (closedAt < 0 || closedAt == len(accepted)) {
+			c.Emit("direct c03_wire_is_concat %d FAIL %s", n, msg)
+		} else {
+			c.Emit("direct c03_wire_is_concat %d ok", n)
+		}
+		c.Stat("direct_wire", 1)
+	}
 	c.Stat("cn_cases", 1)
 	if m.spontaneous {
 		c.Stat("spontaneous_timer", 1)
